@@ -211,6 +211,50 @@ fn run(ctx: &mut Ctx) {
             }
         }
     });
+    // ---- pieces of 7..12 hits (a cluster only together) separated by holes of 3 cm +- 1e-10..1e-6 m, at |z| up to 1.1 m
+    // and with a small transverse offset: whether two hits are linked must be decided on the full-precision distance
+    let n = ctx.tier.pick(1500, 60_000);
+    ctx.cases("threshold-gaps", n, |ctx, i, rng| {
+        let (r, phi) = (rng.range(0.11, 0.19), rng.range(-PI, PI));
+        let npieces = 2 + rng.usize(2);
+        let mut z = if i % 2 == 0 { rng.range(0.6, 0.95) } else { rng.range(-1.1, 0.5) };
+        let mut pts: Vec<SpacePoint> = Vec::new();
+        let mut cur_phi = phi;
+        for piece in 0..npieces {
+            let np = 7 + rng.usize(6);
+            for k in 0..np {
+                if k > 0 {
+                    z += rng.range(0.003, 0.012);
+                }
+                pts.push(sp(r, cur_phi, z));
+            }
+            if piece + 1 < npieces {
+                let delta = *rng.pick(&[1e-10, 1e-9, 5e-9, 2e-8, 5e-8, 1e-7, 1e-6]) * if rng.chance(0.3) { -1.0 } else { 1.0 };
+                let want = 0.03 + delta;
+                // next piece starts `want` away: straight up, or with a transverse step of up to 2 cm
+                let dphi = if rng.bool() { 0.0 } else { rng.range(0.0, 0.02) / r };
+                let chord = 2.0 * r * (dphi / 2.0).sin();
+                z += (want * want - chord * chord).max(0.0).sqrt();
+                cur_phi += dphi;
+            }
+        }
+        if z.abs() > 1.25 {
+            return;
+        }
+        if rng.bool() {
+            rng.shuffle(&mut pts);
+        }
+        ctx.eval();
+        let v = pts.clone();
+        match guard(move || cluster_spacepoints(v)) {
+            Err(p) => ctx.panic_violation("cluster_spacepoints", &p, json!({"points_r_phi_z_bits": super::c14::describe_points(&pts)})),
+            Ok(res) => {
+                ctx.count("point sets with holes next to the 3 cm threshold clustered");
+                ctx.count_n("clusters found", res.clusters.len() as u64);
+                check_clustering(ctx, &pts, &res);
+            }
+        }
+    });
     let n = ctx.tier.pick(600, 20_000);
     ctx.cases("tracklists", n, |ctx, i, rng| {
         let k = rng.usize(9);
